@@ -103,6 +103,7 @@ def run(chk):
     # ------------------------------------------------------------------ R10 which variable an item access designates (shared clause)
     from . import shared as _shl
     _shl.pdo_lookup(chk, "R10")
+    _shl.pdo_collection_lookup(chk, "R10")
     # ------------------------------------------------------------------ R8 instances are independent (shared clause)
     from . import shared as _shared
     _shared.isolation(chk, "R8", rels=['canopen/pdo/base.py', 'canopen/pdo/__init__.py'])
